@@ -306,7 +306,18 @@ def shrink(case):
                   start=d["start"] - 1 if d["start"] > idx else d["start"])
         yield Case(_line(nd), nd, case.tags)
 
-NOT_READY = True
-LEVEL_TEXT = ""
-LEVEL_NOTE = ""
-TECHNIQUE = ""
+NOT_READY = False
+LEVEL_TEXT = ("Proof. Lean 4 theorems (C04.*) show, for every tree, start depth, filter/stop predicate and max_depth, that the "
+              "implementation-shaped models of all seven iterators (recursive pre/post with the triple gate, the next_level "
+              "loops of level-order and zigzag with the reversal flag, the grouped variants with their 'next group' rule, "
+              "in-order with empty slots) equal the first-principles specification: gate the tree (remove exactly the subtrees "
+              "rooted at stopped / too deep nodes), traverse (pre, post, layers, alternately reversed layers), filter; groups = "
+              "layers; every iterator is a permutation of the pre-order and duplicate-free for distinct identities. The model is "
+              "tied to /repo on every run by differential testing of the real iterators against the compiled model on all "
+              "ordered trees up to 6/7 nodes x every start node, exhaustive predicate subsets on small trees, random trees to "
+              "depth 10 / fan-out 8 and binary trees with holes; a model-free oracle re-derives the expected sequence from the "
+              "real objects.")
+LEVEL_NOTE = ("Trusted: Lean kernel, axioms <= {propext, Classical.choice, Quot.sound} (audited each run), the hand-written model's "
+              "correspondence to iterators.py as established by the tie (not proved), CPython. Generators are modelled as the lists "
+              "they yield when exhausted without interleaved mutation; predicates are functions of node identity.")
+TECHNIQUE = "Lean 4 proof (structural/fuel induction: impl-shaped traversal = specification) + correspondence check against the real iterators"
